@@ -118,4 +118,27 @@ theorem checkProof_accepts (c r : PCell) (h : Bytes) (d : Nat)
     simp [e3]
   · simp [checkBlockHeaderProof, hh]
 
+/-! ### the representation hash of a pruned-branch object -/
+
+/-- `Cell.hash` of a constructed spec-valid pruned branch is `H` of its own representation (NOT a hash it carries) -/
+theorem construct_pruned_hash (H : Bytes → Bytes) (bits : Bits) (wf : NodeWF H .pruned bits []) (i : CellInfo)
+    (hc : construct H 1 bits [] = some i) :
+    i.hash = H ([Spec.d1 0 true (Spec.nodeMask .pruned bits []), Spec.d2 bits.length] ++ Spec.dataBytes bits) := by
+  obtain ⟨hres, hm⟩ := resolveMask_eq H .pruned bits [] [] trivial wf
+  obtain ⟨_, _, h3, h4⟩ := wf.pruned rfl
+  generalize Spec.nodeMask .pruned bits [] = mask at *
+  have hfold := loop_pruned H bits mask h3 h4 wf.bitsLen
+  have hkc : kindCode .pruned = kPruned := rfl
+  rw [hkc] at hres
+  have e1 : (kPruned == kPruned) = true := by decide
+  have e2 : (kPruned != kOrdinary) = true := by decide
+  have e3 : (1 : Int) = kPruned := rfl
+  rw [e3] at hc
+  simp only [construct, hres, Option.bind_eq_bind, Option.bind_some, e1, e2, if_true, Nat.add_sub_cancel,
+    hfold, List.length_nil, descriptors_eq 0 true bits.length mask (by omega) wf.bitsLen hm,
+    List.getLast?_singleton, Option.pure_def, Option.some.injEq] at hc
+  subst hc
+  simp [CellInfo.hash, dataBytes_eq]
+
+
 end TonVerif.Proofs.Merkle
